@@ -459,10 +459,12 @@ class GroupEffectsMatrix:
             groups = term.groups
             term_slice = self.slices[name]
             term_slice_width = get_slice_width(term_slice)
-            levels_n = len(term.expr.levels) if has_levels else 1
-            if term_slice_width != len(groups) * levels_n:  # Has extra groups
+            # Number of columns the effect contributes to each group
+            expr_data = term.expr.data
+            effects_n = expr_data.shape[1] if expr_data.ndim == 2 else 1
+            if term_slice_width != len(groups) * effects_n:  # Has extra groups
                 assert (
-                    term_slice_width == len(groups) + levels_n
+                    term_slice_width == (len(groups) + 1) * effects_n
                 ), "It should only have one extra group"
                 groups = groups + ["__NEW_FACTOR_GROUP__"]
             content = [f"kind: {term.kind}", f"groups: {groups}"]
